@@ -223,6 +223,26 @@ def search(ctx):
         if not (_rel(back, a) <= 1e-11):
             ctx.violation("C17:ifft-fft-1d:%s" % ("odd" if m % 2 else "even"), "1-d ifft(fft(x)) != x for length %d" % m,
                           dict(kind="ifft-fft-1d", n=m, seed=ctx.seed))
+    # ---- stacks of images (what propagate returns for several distances), every axis order, with and without the shift
+    import itertools
+    import xarray as xr
+    for dims in itertools.permutations(("x", "y", "z")):
+        for sh in (True, False):
+            shape = dict(x=int(rng.integers(2, 8)), y=int(rng.integers(2, 8)), z=int(rng.integers(1, 4)))
+            vals = rng.normal(size=[shape[d] for d in dims]) + 1j * rng.normal(size=[shape[d] for d in dims])
+            st = xr.DataArray(vals, dims=dims, coords={d: np.arange(shape[d]) * (0.1 if d != "z" else 1.5) for d in dims})
+            ctx.tried("ifft-fft-stack", (dims, sh))
+            info = dict(kind="ifft-fft-stack", dims=list(dims), shape=[shape[d] for d in dims], shift=sh, seed=ctx.seed)
+            try:
+                back = ifft(fft(st, shift=sh), shift=sh)
+                err = _rel(back.values, st.values) if back.dims == st.dims else float("inf")
+                if not (err <= 1e-11):
+                    ctx.violation("C17:ifft-fft-stack:%s" % ("shift" if sh else "noshift"),
+                                  "ifft(fft(x, shift=%s), shift=%s) != x for a stack with axes %s (rel err %.3g)" % (sh, sh, dims, err), dict(err=err, **info))
+                elif not all(np.allclose(back[d], st[d], rtol=1e-9, atol=1e-12) for d in dims):
+                    ctx.violation("C17:ifft-fft-stack-coords", "ifft(fft(x)) of a stack with axes %s does not return its coordinates" % (dims,), info)
+            except Exception as ex:
+                ctx.violation("C17:ifft-fft-stack-raises:%s" % type(ex).__name__, "ifft(fft(x, shift=%s)) raised %r for a stack with axes %s" % (sh, ex, dims), info)
     # ---- propagation laws
     n = ctx.n(40, 400)
     for i in range(n):
@@ -367,6 +387,12 @@ def replay(ctx, data):
         nx, ny = r["shape"]
         im = rand_image(rng, nx, ny, True)
         print("rel err of ifft(fft(x)):", impl_call(lambda: _rel(ifft(fft(im)).values, im.values)))
+    elif r.get("kind") == "ifft-fft-stack":
+        import xarray as xr
+        dims, shape, sh = r["dims"], r["shape"], r["shift"]
+        vals = rng.normal(size=shape) + 1j * rng.normal(size=shape)
+        st = xr.DataArray(vals, dims=dims, coords={d: np.arange(n) * 0.1 for d, n in zip(dims, shape)})
+        print("rel err of ifft(fft(x, shift=%s), shift=%s) for axes %s:" % (sh, sh, dims), impl_call(lambda: _rel(ifft(fft(st, shift=sh), shift=sh).values, st.values)))
     else:
         nx, ny = r["shape"]
         im = rand_image(rng, nx, ny, r.get("complex", False), spacing=r.get("spacing"))
